@@ -2158,4 +2158,149 @@ theorem fresh_densify_object' (cfg : Cfg) (n : Nat) (c a : Bool) (s : List Inter
     simp only
     cases applyPlans s ps <;> rfl
 
+
+/-! ## Phase 3: sets, injective noise -/
+
+
+/-- with `pyEq_refl` in hand, being a set is just being pairwise different -/
+theorem distinct_of_pairwiseNe (as : List Val) (hwf : ∀ a ∈ as, wfNoLazy a = true) (h : pairwiseNeB as = true) : Distinct as := by
+  intro i j a b hi hj
+  have hi' : i < as.length := by
+    rcases Nat.lt_or_ge i as.length with h' | h'
+    · exact h'
+    · simp [List.getElem?_eq_none h'] at hi
+  have hj' : j < as.length := by
+    rcases Nat.lt_or_ge j as.length with h' | h'
+    · exact h'
+    · simp [List.getElem?_eq_none h'] at hj
+  unfold pairwiseNeB at h
+  have h1 := List.all_eq_true.mp h i (List.mem_range.mpr hi')
+  have h2 := List.all_eq_true.mp h1 j (List.mem_range.mpr hj')
+  simp only [hi, hj, Bool.or_eq_true, Bool.not_eq_true'] at h2
+  by_cases hij : i = j
+  · subst hij
+    rw [hi] at hj; cases hj
+    simp [pyEq_refl_wf a (hwf a (List.mem_of_getElem? hi))]
+  · have : (i == j) = false := by simp [hij]
+    rw [this] at h2 ⊢
+    simpa using h2
+
+/-! ### Noise with an injective noiser on numeric actions -/
+theorem noisesList_affine_nums (m b : Rat) : ∀ (orc : List Rat) (xs : List Rat),
+    noisesList (some (.affine m b)) orc (xs.map Val.num) = .ok (orc, xs.map fun x => Val.num (x * m + b))
+  | orc, [] => by simp [noisesList]
+  | orc, x :: xs => by
+    simp [noisesList, noises, denseItems, noise1, noisesList_affine_nums m b orc xs]
+
+theorem distinct_nums_map (f : Rat → Rat) (hf : ∀ x y, (f x == f y) = (x == y)) (xs : List Rat)
+    (hd : Distinct (xs.map Val.num)) : Distinct (xs.map fun x => Val.num (f x)) := by
+  intro i j a b hi hj
+  simp only [List.getElem?_map] at hi hj
+  cases hx : xs[i]? with
+  | none => simp [hx] at hi
+  | some x =>
+    cases hy : xs[j]? with
+    | none => simp [hy] at hj
+    | some y =>
+      simp [hx] at hi; simp [hy] at hj
+      subst hi; subst hj
+      have := hd i j (.num x) (.num y) (by simp [hx]) (by simp [hy])
+      simp only [pyEq] at this ⊢
+      rw [hf]; exact this
+
+/-- **Noise with an injective (affine, slope ≠ 0) noiser keeps a set of numeric actions a set** -/
+theorem noise_affine_nums_distinct' (m b : Rat) (hm : m ≠ 0) (orc o' : List Rat) (xs : List Rat) (out : List Val)
+    (h : noisesList (some (.affine m b)) orc (xs.map Val.num) = .ok (o', out)) (hd : Distinct (xs.map Val.num)) : Distinct out := by
+  rw [noisesList_affine_nums] at h
+  cases h
+  exact distinct_nums_map (fun x => x * m + b) (fun x y => affine_injective m b x y hm) xs hd
+
+
+
+/-! ## Phase 3: batched rewards -/
+
+
+/-- member `k` of a batched call is member `k`'s function on member `k`'s action -/
+theorem batchCall_getElem? : ∀ (fs : List Rew) (as : List Val) (k : Nat) (f : Rew) (a : Val),
+    fs[k]? = some f → as[k]? = some a → (batchCall fs as)[k]? = some (callRew f a)
+  | [], _, k, f, a, h, _ => by simp at h
+  | _ :: _, [], k, f, a, _, h => by simp at h
+  | f0 :: fs, a0 :: as, 0, f, a, hf, ha => by
+    simp at hf ha; subst hf; subst ha; simp [batchCall]
+  | f0 :: fs, a0 :: as, k + 1, f, a, hf, ha => by
+    simp at hf ha
+    simp [batchCall, batchCall_getElem? fs as k f a hf ha]
+
+theorem column_getElem? (i : Nat) : ∀ (actss : List (List Val)) (col : List Val), column i actss = some col →
+    ∀ (k : Nat) (as : List Val), actss[k]? = some as → ∃ a, as[i]? = some a ∧ col[k]? = some a
+  | [], col, h, k, as, hk => by simp at hk
+  | as0 :: rest, col, h, k, as, hk => by
+    simp only [column] at h
+    cases ha : as0[i]? with
+    | none => simp [ha] at h
+    | some a0 =>
+      cases hc : column i rest with
+      | none => simp [ha, hc] at h
+      | some col' =>
+        simp [ha, hc] at h
+        subst h
+        cases k with
+        | zero => simp at hk; subst hk; exact ⟨a0, ha, by simp⟩
+        | succ k =>
+          simp at hk
+          obtain ⟨a, h1, h2⟩ := column_getElem? i rest col' hc k as hk
+          exact ⟨a, h1, by simpa using h2⟩
+
+/-- the batched reward function, asked for the i-th action of every member, answers member by member with what
+each member's own function says about its own i-th action -/
+theorem batchObs_member' (get : Inter → Option Rew) (batch : List Inter) (i : Nat) (col : List (Except Err Rat))
+    (h : batchObs get batch i = some col) (k : Nat) (I : Inter) (hk : batch[k]? = some I) :
+    ∃ r as a, get I = some r ∧ I.actions = some as ∧ as[i]? = some a ∧ col[k]? = some (callRew r a) := by
+  unfold batchObs at h
+  split at h
+  · simp at h
+  · rename_i pairs hm
+    split at h
+    · rename_i cl hc
+      simp at h
+      subst h
+      have hmap := mapM'_ok _ _ _ hm
+      have hlen := mapM'_length _ _ _ hm
+      have hkl : k < pairs.length := by
+        rw [hlen]
+        rcases Nat.lt_or_ge k batch.length with h' | h'
+        · exact h'
+        · simp [List.getElem?_eq_none h'] at hk
+      have hp : pairs[k]? = some pairs[k] := List.getElem?_eq_getElem hkl
+      obtain ⟨x, hx, hfx⟩ := getElem?_of_map_eq hmap k pairs[k] hp
+      rw [hk] at hx; cases hx
+      cases hg : get I with
+      | none => simp [hg] at hfx
+      | some r =>
+        cases hacts : I.actions with
+        | none => simp [hg, hacts] at hfx
+        | some as =>
+          simp only [hg, hacts] at hfx
+          split at hfx
+          · simp at hfx
+            obtain ⟨a, h1, h2⟩ := column_getElem? i _ cl hc k as (by simp [hp, ← hfx])
+            refine ⟨r, as, a, rfl, rfl, h1, ?_⟩
+            exact batchCall_getElem? _ _ k r a (by simp [hp, ← hfx]) h2
+          · simp at hfx
+    · simp at h
+
+/-- **BatchSafe**: a representation filter applied to a batched stream is the filter applied to the un-batched
+stream, batched again with the size of the first batch — batching and un-batching commute with every representation change -/
+theorem batchsafe_commutes' (cfg : Cfg) (st : Step) (s : List Inter) (k : Nat) (ks : List Nat)
+    (hb : ∀ n, st ≠ .batch n) (hu : st ≠ .unbatch) :
+    runStep cfg st { stream := s, sizes := some (k :: ks) } =
+      (match runPrims cfg (expandStep st) s with
+       | .error e => .error e
+       | .ok s' => .ok { stream := s', sizes := some (chunkSizes k s'.length s'.length) }) := by
+  cases st with
+  | batch n => exact absurd rfl (hb n)
+  | unbatch => exact absurd rfl hu
+  | _ => rfl
+
+
 end Coba.C10
